@@ -146,6 +146,9 @@ def compute_features_2d(sigs, fs, f_range, compute_features_kwargs=None, axis=0,
                 thresholds = compute_kwargs.pop('threshold_kwargs', {})
                 center_extrema_next = compute_kwargs.pop('center_extrema', None)
 
+                if center_extrema_next is not None and center_extrema_next not in ('peak', 'trough'):
+                    raise ValueError("Unrecognized 'center_extrema'.")
+
                 if idx > 0 and center_extrema_next is not None \
                     and center_extrema_next != center_extrema:
 
@@ -159,6 +162,9 @@ def compute_features_2d(sigs, fs, f_range, compute_features_kwargs=None, axis=0,
 
                 elif burst_method == 'amp':
                     dfs_features[idx] = detect_bursts_amp(dfs_features[idx], **thresholds)
+
+                else:
+                    raise ValueError("Unrecognized 'burst_method'.")
 
     else:
         raise ValueError("The axis kwarg must be either 0 or None.")
